@@ -11,6 +11,7 @@ be structurally equal to the generated tree up to redundant parentheses and flat
 constant kind and denotation, every path step, qualifier and its attachment preserved); the model object itself is walked and compared
 field by field; text2 is accepted by the third-party parser; text3 == text2.
 """
+import re
 import datetime as dt
 import itertools
 
@@ -62,9 +63,20 @@ def walk_path(p):
     return ("path", p.object_type_name, tuple(steps))
 
 
+QUOTED_STEP = re.compile(r"'(?:[^'\\]|\\['\\])*'\Z")
+
+
 def strip_quotes(name):
-    if isinstance(name, str) and len(name) >= 2 and name[0] == "'" and name[-1] == "'":
+    """the model's convention: a component name may be given (and is kept) as a well-formed quoted step; anything else is the name itself"""
+    if isinstance(name, str) and QUOTED_STEP.match(name):
         return A.unesc(name[1:-1])
+    return name
+
+
+def model_name(name):
+    """how a caller following that convention hands over a NAME: as it is, unless it would be taken for a quoted step - then quoted"""
+    if QUOTED_STEP.match(name):
+        return "'" + name.replace("\\", "\\\\").replace("'", "\\'") + "'"
     return name
 
 
@@ -134,13 +146,13 @@ def build_path(p):
         if i + 1 < len(steps) and steps[i + 1][0] == "idx":
             if i + 2 < len(steps) and steps[i + 2][0] == "idx":
                 raise NotBuildable("the model has no component for two consecutive index steps")
-            comps.append(P.ListObjectPathComponent(st[1], steps[i + 1][1]))
+            comps.append(P.ListObjectPathComponent(model_name(st[1]), steps[i + 1][1]))
             i += 2
         elif st[1].endswith("_ref"):
             comps.append(P.ReferenceObjectPathComponent(st[1]))
             i += 1
         else:
-            comps.append(P.BasicObjectPathComponent(st[1], False))
+            comps.append(P.BasicObjectPathComponent(model_name(st[1]), False))
             i += 1
     return P.ObjectPath(p[1], comps)
 
@@ -544,8 +556,98 @@ def check_text_path(path, part, case):
             part.outcome("text-path:ok")
 
 
+REPARSE_TEXTS = [
+    "[windows-registry-key:key = 'HKEY_LOCAL_MACHINE\\\\Software\\\\Foo' AND windows-registry-key:q = 2 AND windows-registry-key:p = 1]",
+    "[ipv4-addr:value ISSUBSET '198.51.100.77/24' OR ipv4-addr:value = '198.51.100.5/32']",
+    "[x:p = 1 OR x:p = 1 OR (x:p = 1 AND x:q = 2)]",
+    "[x:q = 2 AND x:p = 1] OR [x:q = 2 AND x:p = 1]",
+    "([x:b = 2] AND [x:a = 1]) REPEATS 2 TIMES WITHIN 5 SECONDS",
+    "[x:p NOT IN (3, 1, 2)] FOLLOWEDBY [x:q != 'B']",
+    "[x:p = 1 AND (x:q = 2 OR (x:r = 3 AND (x:s = 4 OR x:t = 5)))]",
+]
+REPARSE_SHAPES = [("text", lambda f, t: f(t)), ("version-keyword", lambda f, t: f(t, version="2.1")), ("positional", lambda f, t: f(t, "", "", "2.1"))]
+
+
+def reparse_uses():
+    """what happens to the model of the FIRST parse before the same text is parsed again (the library's own in-place normalisation included)"""
+    import stix2.patterns as P
+    from stix2.equivalence import pattern as EQ
+
+    def first_cmp(m):
+        node = m
+        while True:
+            if hasattr(node, "observation_expression"):
+                node = node.observation_expression
+            elif hasattr(node, "expression"):
+                node = node.expression
+            elif hasattr(node, "operands"):
+                node = node.operands[0]
+            elif hasattr(node, "operand"):
+                node = node.operand
+            else:
+                return node
+
+    def negate(m, t):
+        c = first_cmp(m)
+        c.negated = not c.negated
+
+    def change_rhs(m, t):
+        first_cmp(m).rhs = P.StringConstant("changed")
+
+    def grow(m, t):
+        node = m
+        while not hasattr(node, "operands"):
+            node = getattr(node, "observation_expression", None) or getattr(node, "expression", None) or getattr(node, "operand", None)
+            if node is None:
+                return
+        node.operands.append(node.operands[0])
+        node.operands.reverse()
+
+    return [("nothing", lambda m, t: None), ("printed", lambda m, t: str(m)),
+            ("equivalent_patterns", lambda m, t: EQ.equivalent_patterns(t, t, stix_version="2.1")),
+            ("find_equivalent_patterns", lambda m, t: list(EQ.find_equivalent_patterns(t, [t, "[x:zz = 1]"], stix_version="2.1"))),
+            ("caller-negates-first-comparison", negate), ("caller-replaces-a-constant", change_rhs), ("caller-appends-and-reorders-operands", grow)]
+
+
+def check_reparse(ti, part, case):
+    """HISTORY: what was done with the model of an earlier parse of the same text (by the caller or by the library's own equivalence code, which normalises models in place)
+    does not show in a later parse: every parse is a fresh model of the text."""
+    from stix2.pattern_visitor import create_pattern_object
+    text = REPARSE_TEXTS[ti]
+    want = A.norm(A.read(text, "2.1"))
+    for sname, shape in REPARSE_SHAPES:
+        for uname, use in reparse_uses():
+            if case.get("shape") not in (None, sname) or case.get("use") not in (None, uname):
+                continue
+            part.evaluations += 1
+            part.transitions += 1
+            c = dict(case, shape=sname, use=uname, text=text)
+            m1 = shape(create_pattern_object, text)
+            t1 = str(m1)
+            use(m1, text)
+            m2 = shape(create_pattern_object, text)
+            t2 = str(m2)
+            part.state(("reparse", ti, sname, uname, t2))
+            got = None
+            try:
+                got = A.norm(A.read(t2, "2.1"))
+            except Exception:
+                pass
+            if m2 is m1 or t2 != t1 or got != want:
+                part.outcome("reparse:DIFFERS")
+                part.violation("C10/parse-depends-on-earlier-use-of-the-model/%s" % uname, "a second parse of the same text does not print like the first: the model is shared with an earlier parse", c, t1,
+                               t2 if t2 != t1 else "the very same model object is returned")
+            else:
+                part.outcome("reparse:ok")
+
+
 def run_case(case, part):
     env.reset()
+    if case["family"] == "reparse-after-use":
+        for ti in range(len(REPARSE_TEXTS)):
+            if case.get("index") is None or case["index"] == ti:
+                check_reparse(ti, part, {"family": "reparse-after-use", "index": ti, "shape": case.get("shape"), "use": case.get("use")})
+        return
     if case["family"] == "text-paths":
         for i, path in enumerate(text_paths()):
             if case.get("index") is None or case["index"] == i:
@@ -578,6 +680,8 @@ def run_case(case, part):
 def replay(case, part):
     if case["family"] == "raw-values":
         return run_case({"family": "raw-values", "depth": case["depth"], "sequence": case["sequence"]}, part)
+    if case["family"] == "reparse-after-use":
+        return run_case({"family": "reparse-after-use", "index": case["index"], "shape": case.get("shape"), "use": case.get("use")}, part)
     run_case({"family": case["family"], "index": case["index"], "thorough": case.get("thorough", False)}, part)
 
 
@@ -592,6 +696,9 @@ def run(run):
             cases.append({"family": name, "lo": lo, "hi": lo + step, "thorough": th})
     cases.append({"family": "constants"})
     cases.append({"family": "text-paths"})
+    for ti in range(len(REPARSE_TEXTS)):
+        cases.append({"family": "reparse-after-use", "index": ti})
+    sizes["reparse-after-use"] = len(REPARSE_TEXTS) * len(REPARSE_SHAPES) * 7
     sizes["text-paths"] = len(text_paths())
     for first in range(len(RAW)):
         cases.append({"family": "raw-values", "depth": 3 if th else 2, "first": first})
@@ -601,7 +708,7 @@ def run(run):
     run.rule = ("full product of the atom menus (operator x NOT x constant x path) + all comparison / observation trees with <= %d leaves over every operator assignment and every "
                 "parenthesisation + qualifier placements (alone, stacked, on operand vs on group) + mixed trees; each through text->model->text (twice), field-by-field model walk and "
                 "programmatic construction; every model constant class x value menu (refused, or valid text with the same value); every sequence of %d raw Python values through the "
-                "comparison classes (type chosen for a value independent of earlier values); under the 2.1 grammar and, where the third-party 2.0 parser accepts the text, the 2.0 grammar; states = distinct (grammar version, text)" % (4 if th else 3, 3 if th else 2))
+                "comparison classes (type chosen for a value independent of earlier values); every (text, call shape, earlier use of the first model) triple parsed a second time; under the 2.1 grammar and, where the third-party 2.0 parser accepts the text, the 2.0 grammar; states = distinct (grammar version, text)" % (4 if th else 3, 3 if th else 2))
     run.bound = {"families": sizes, "max_leaves": 4 if th else 3}
     run.assumptions += ["independent reader mc/ref/pattern_ast.py on top of the third-party stix2-patterns ANTLR parse tree (its grammar is the definition of 'valid pattern')",
                         "structural equality ignores redundant parentheses and flattens chains of one associative operator (AND / OR / FOLLOWEDBY)"]
